@@ -19,6 +19,18 @@ claimed = {
  "C02": ("bounded-exhaustive enumeration of weak-order patterns x requests x ALL pivot sequences (DFS through a pivot hook) + proptest with scripted pivots, oracle = full sort",
          "Complete over order patterns and pivot sequences up to the stated length (the routine can only compare and clone, so longer inputs differ only in pattern), random search with adversarial pivot scripts beyond it; every execution is compared with a full sort, the partition post-condition and the multiset.",
          "Trusts std sort, ndarray slicing and the pivot hook (which replaces the drawn pivot only when a script is installed).", "5/C02"),
+ "C05": ("proptest over type x 0-4-D shape x layout x ownership x NaN/tie placements; oracle = independent scan of the logical data",
+         "Every generated array (incl. empty, zero-length axes, 0-D, NaN at first/middle/last) is scanned independently; index and value forms must designate a true extremum, agree with each other, and report EmptyInput / UndefinedOrder exactly when documented.",
+         "Which of several equal extrema is returned is not constrained (documented as unspecified).", "5/C05"),
+ "C11": ("proptest operation sequences against a dictionary model, invariant after every step; matrix forms and permuted order as metamorphic relations",
+         "Histories of inserts (inside, on every edge, outside) on grids of 1-3 arbitrary axes are replayed against a model with linear-scan bin lookup; counts, shape and the accept/reject decision are compared after every single step, then against row-major, column-major and permuted matrix input.",
+         "No stateful proptest library is installed; histories are vec(op) + interpreter, shrunk as one value.", "5/C11"),
+ "C12": ("proptest over type x strategy x data class with a counted termination bound (fuel hook); oracle = edge/cover/count invariants",
+         "Data classes target the failure modes (inexact grids, offsets with ulp-sized spread, zero IQR); every accepted build is checked for first edge == min, equal widths, last edge in (max, max+width], total coverage and n_bins agreement; termination is a counted bound, not a timeout.",
+         "Domain precondition (max-min)/width <= 1e5 (counted as discarded otherwise); integers within +-MAX/4 as the property states.", "5/C12"),
+ "C13": ("bounded-exhaustive enumeration of edge sequences x all probes + proptest; oracle = BTreeSet + linear scan",
+         "Complete over every edge multiset and input order up to length 6/7 with every probe position; random lists and grids beyond; all accessors cross-checked.",
+         "Only comparisons are used by the code, so small alphabets are representative.", "5/C13"),
  "C14": ("proptest over type x shape x axis x layout x mask x q x strategy x pivots; differential oracle = plain operation on harness-filtered data (quantiles via the C01 oracle)",
          "All nine skip-NaN operations are exercised on every generated array and compared with the plain operation on the data with missing values deleted, lane by lane for the per-axis forms; folds/visits are checked to see each remaining element exactly once.",
          "Value data are small integers / halves so that Midpoint/Linear stay inside the representable range; the known Midpoint/Linear overflow finding is routed by signature as in C01.", "5/C14"),
